@@ -158,3 +158,108 @@ fn c02_array4_shift() {
     kani::cover!(had_aux == 1 && have == 1);
     core::mem::forget(a);
 }
+
+// ---------------------------------------------------------------------------------------------
+// Hll4 images: round trip + layout (C11/C12/C18) and the updatable aux-table variant (C13)
+// ---------------------------------------------------------------------------------------------
+use crate::verif_kani_common::stub_format;
+
+fn rd_u32(b: &[u8], o: usize) -> u32 {
+    (b[o] as u32) | ((b[o + 1] as u32) << 8) | ((b[o + 2] as u32) << 16) | ((b[o + 3] as u32) << 24)
+}
+
+fn same_registers(a: &Array4, model: &[u8; 16]) {
+    let mut s = 0u32;
+    while s < 16 {
+        assert!(a.get(s) == model[s as usize], "deserialized Hll4 register differs from the encoded one");
+        s += 1;
+    }
+}
+
+//@ props: C11 C12 C13 C18
+//@ tier: quick
+//@ timeout: 2400
+//@ functions: hll::array4::Array4::serialize
+//@ functions: hll::array4::Array4::deserialize
+//@ functions: hll::sketch::HllSketch::deserialize
+//@ functions: hll::aux_map::AuxMap::iter
+//@ bounds: lg_k = 4: any valid Hll4 state with all 8 nibble bytes symbolic, cur_min 0..=40 and 0..=2 exceptions (any aux table layout)
+//@ assumes: Array4 representation invariant (any_array4)
+//@ desc: the Hll4 image is 40 + k/2 + 4*aux bytes: preInts 10, serVer 1, family 7, lgK, COMPACT flag set (the aux map is written as a pair list), curMin @6, mode byte HLL|Hll4, numAtCurMin @32, auxCount @36, nibbles @40, then (slot | value << 26) pairs; deserializing it restores every register, cur_min, num_at_cur_min and the exception count; the same state encoded in the updatable form (COMPACT flag clear, aux map as a 4-int hash table with empty slots, lgArr = 2 in byte 4) decodes to the same registers
+#[kani::proof]
+#[kani::unwind(20)]
+#[kani::stub(alloc::fmt::format, stub_format)]
+#[kani::stub(crate::hll::aux_map::AuxMap::grow, cut_grow)]
+fn c11_hll_array4_roundtrip_layout() {
+    let (a, model) = any_array4();
+    let n_aux = a.aux_map.as_ref().map(|m| va::count(m)).unwrap_or(0) as usize;
+    let bytes = a.serialize(4);
+    assert!(bytes.len() == 40 + 8 + 4 * n_aux, "Hll4 image is not 40 + k/2 + 4*aux bytes");
+    assert!(bytes[0] == 10 && bytes[1] == 1 && bytes[2] == 7 && bytes[3] == 4, "preInts / serVer / family / lgK");
+    assert!(bytes[5] & 8 != 0, "COMPACT flag: the aux map is written as a pair list");
+    assert!(bytes[5] & 4 == 0 && bytes[5] & 16 == 0);
+    assert!(bytes[6] == a.cur_min, "curMin field");
+    assert!(bytes[7] == 2, "mode byte: HLL mode, Hll4");
+    assert!(rd_u32(&bytes, 32) == a.num_at_cur_min && rd_u32(&bytes, 36) as usize == n_aux, "numAtCurMin / auxCount");
+    let mut i = 0;
+    while i < 8 {
+        assert!(bytes[40 + i] == a.bytes[i], "nibble byte");
+        i += 1;
+    }
+    let mut i = 0;
+    while i < n_aux {
+        let c = rd_u32(&bytes, 48 + 4 * i);
+        let slot = (c & 0x3ff_ffff) as usize;
+        assert!(slot < 16 && (c >> 26) as u8 == model[slot] && a.get_raw(slot as u32) == AUX_TOKEN, "aux pair is not (slot, value) of an exception register");
+        i += 1;
+    }
+    // round trip through the public entry point
+    let mut img = [0u8; 56];
+    let mut i = 0;
+    while i < 56 {
+        if i < bytes.len() {
+            img[i] = bytes[i];
+        }
+        i += 1;
+    }
+    let g = crate::verif_kani_common::expect_ok(crate::hll::sketch::HllSketch::deserialize(&img[..48 + 4 * n_aux]), "own Hll4 image rejected");
+    match g.mode() {
+        crate::hll::mode::Mode::Array4(b) => {
+            same_registers(b, &model);
+            assert!(b.cur_min == a.cur_min && b.num_at_cur_min == a.num_at_cur_min, "cur_min / num_at_cur_min changed");
+            assert!(b.aux_map.as_ref().map(|m| va::count(m)).unwrap_or(0) as usize == n_aux, "exception count changed");
+        }
+        _ => panic!("Hll4 image decoded to another mode"),
+    }
+    // updatable form: aux as a hash table of 4 ints (pairs at arbitrary positions, the rest empty)
+    if n_aux >= 1 {
+        let mut upd = [0u8; 64];
+        let mut i = 0;
+        while i < 48 {
+            upd[i] = bytes[i];
+            i += 1;
+        }
+        upd[4] = 2; // lgAuxArrInts
+        upd[5] &= !8; // not compact
+        let p0: usize = kani::any();
+        let p1: usize = kani::any();
+        kani::assume(p0 < 4 && p1 < 4 && p0 != p1);
+        let mut j = 0;
+        while j < 4 {
+            upd[48 + 4 * p0 + j] = bytes[48 + j];
+            if n_aux == 2 {
+                upd[48 + 4 * p1 + j] = bytes[52 + j];
+            }
+            j += 1;
+        }
+        let g2 = crate::verif_kani_common::expect_ok(crate::hll::sketch::HllSketch::deserialize(&upd), "valid updatable Hll4 image rejected");
+        match g2.mode() {
+            crate::hll::mode::Mode::Array4(b) => same_registers(b, &model),
+            _ => panic!("Hll4 image decoded to another mode"),
+        }
+        core::mem::forget(g2);
+    }
+    kani::cover!(n_aux == 2);
+    kani::cover!(n_aux == 0);
+    core::mem::forget((a, g, bytes));
+}
